@@ -1,16 +1,27 @@
-(** Property C08 (every live timer fires exactly once, on time; no call sequence panics).
+(** Property C08: every live timer fires exactly once, on time; no call sequence panics.
     Only property theorems live here; each is closed by [exact] of a lemma of coq/T. *)
 From Coq Require Import ZArith List Bool.
-From Stk Require Import Lib.U Gen.SrcTimers T.Model T.Spec T.Inv T.InvProofs.
+From Stk Require Import Lib.U Gen.SrcTimers T.Model T.Spec T.Inv T.InvProofs T.Rel T.Main T.Witness.
 Import ListNotations.
 Local Open Scope Z_scope.
 
-(** No panic, structure preserved.  For every history [ops] of admissible operations ([ops_ok]:
-    instants below 2^62 ns, no verification-hook pokes; keys are arbitrary) of at most
-    HMAX = 2^31 - 2 operations, run from [Timers::new]: every operation returns (no overflow check
-    fires, no index is out of bounds, no explicit panic!, no unwrap on None, the collision loop of
-    [add] succeeds at its first iteration, the fuel of [advance] suffices), and the structural
-    invariant [TInv] holds in the state reached - hence in every reachable state. *)
+(** For every good history the C08 monitor of T/Spec.v is true at every operation: no operation
+    panics (the model history has no [None] output), every callback reported by a run belongs to a
+    registered timer that is pending (so nothing fires twice), and after every run that advances
+    time no pending timer remains whose deadline - max (effective expiry, time the expiry was last
+    set) - lies one resolution step (2^14 ns) or more before the new current time.  Max timers
+    honour the greatest, Min timers the smallest instant given (the specification's [ti_eff]). *)
+Theorem C08_on_time : forall ops, good ops -> v08 (mon_all (model_history ops)) = true.
+Proof. exact C08_all. Qed.
+Check C08_on_time : forall ops, good ops -> v08 (mon_all (model_history ops)) = true.
+Print Assumptions C08_on_time.
+
+(** No panic, structure preserved, for ARBITRARY keys (not only well-keyed histories): for every
+    history [ops] of admissible operations ([ops_ok]: instants below 2^62 ns, no pokes) of at most
+    HMAX = 2^31 - 2 operations, every operation returns (no overflow check fires, no index is out of
+    bounds, no explicit panic!, no unwrap on None, the collision loop of [add] succeeds at its first
+    iteration, the fuel of [advance] suffices), and the structural invariant [TInv] holds in the
+    state reached - hence in every reachable state. *)
 Theorem C08_no_panic :
   forall ops, Z.of_nat (length ops) <= HMAX -> ops_ok t_init ops ->
   let '(outs, sf) := trun t_init ops in
@@ -29,26 +40,19 @@ Theorem C08_step_safe :
 Proof. exact tstep_safe. Qed.
 Print Assumptions C08_step_safe.
 
-(** the hypotheses are satisfiable by a non-trivial history: all three kinds, updates in both
-    directions (including a Min update into the past: the fixed finding F1), deletes, stale and
-    Default keys, a long fixed timer, runs that jump over several 9-hour periods *)
-Definition ex_ops : list top :=
-  [ ORun 10000000000; OAddMin 100000000000 1; OModMin 1 0 1 5000000000; ONextExpiry; ORun 11000000000;
-    OAdd 12000000000 2; OAfter 40000000000000 3; OAddMax 13000000000 4; OModMax 7 1 1 90000000000000;
-    OAddMin 500000000000 5; OModMin 9 2 1 20000000000; ODel 5 2147483649 786432; ODelMax (-1) 0 0;
-    OActMin 9 2 1; ONextWait 11500000000; ONextWaitMax 11500000000 1000 false;
-    ORun 12500000000; ORun 40000000000; ORun 150000000000000; ONextExpiry; ONow ].
-Example ex_ops_ok : Z.of_nat (length ex_ops) <= HMAX /\ ops_ok t_init ex_ops.
-Proof. vm_compute. repeat split; try reflexivity; try discriminate. Qed.
-Example ex_ops_outputs :
-  fst (trun t_init ex_ops) =
+(** the hypotheses are satisfiable by a non-trivial history *)
+Example C08_good_satisfiable : good good_ops /\ band_free good_ops.
+Proof. exact good_ops_good. Qed.
+Example C08_good_verdict : v_all (mon_all (model_history good_ops)) = true.
+Proof. exact good_ops_verdict. Qed.
+Example C08_good_outputs :
+  fst (trun t_init good_ops) =
   [ Some (RFired []); Some (RKey 0 1); Some (RBool true); Some (ROptNs (Some 10000016384)); Some (RFired [1]);
     Some (RKey 2147483649 786432); Some (RKey 0 2); Some (RKey 1 1); Some (RBool true);
     Some (RKey 2 1); Some (RBool true); Some (RBool true); Some (RBool false);
     Some (RBool true); Some (ROptNs (Some 1500000000)); Some (RNs 1000);
-    Some (RFired []); Some (RFired [5]); Some (RFired [3; 4]); Some (ROptNs None); Some (RNs 150000000000000) ].
-Proof. vm_compute. reflexivity. Qed.
-
-(* placeholder until the on-time theorem lands (next milestone) *)
-Theorem C08_on_time : True. Proof. exact I. Qed.
-Print Assumptions C08_on_time.
+    Some (RFired []); Some (RFired [5]); Some (ROptNs (Some 32778000000000)); Some (RFired []);
+    Some (ROptNs (Some 32807000000000)); Some (RFired [4; 3]); Some (ROptNs None); Some (RNs 150000000000000) ].
+Proof. exact good_ops_outputs. Qed.
+Example C08_ops_ok_satisfiable : Z.of_nat (length good_ops) <= HMAX /\ ops_ok t_init good_ops.
+Proof. vm_compute. repeat split; try reflexivity; try discriminate. Qed.
